@@ -92,6 +92,8 @@ class Sub(dict):
             return self.local[k]
         if k[0] == "m":
             t = lv.int()
+            if lv.symbolic:
+                self.modes.append(lv.vars[-1][2])    # call-site modes are pairwise distinct as well
             return t
         return {"i": lv.int, "f": lv.float}[k[0]]()
 
@@ -101,12 +103,20 @@ def render(spec, lv):
     files, main = LAYOUTS[layout]
     out = {}
     pre = []
+    hints = []
     for rel in sorted(files):
         modes = []
         sub = Sub(lv, modes)
         out[rel] = "\n".join([l % sub if "%(" in l else l for l in files[rel]]) + "\n"
         if lv.symbolic and len(modes) > 1:
             pre.append(z3.Distinct(modes))
+        if lv.symbolic and len(sub.local) > 1:
+            # replay steering only: CPython iterates a small int set by value mod 8; pick included modes whose
+            # residue order differs from their increasing order (e.g. {8, 1})
+            loc = [lv.reg.lookup(t).re for t in sub.local.values()]
+            pairs = [z3.And(x < y, x % 8 > y % 8) for x in loc for y in loc if x is not y]
+            hints.append([z3.Or(pairs), z3.Distinct([x % 8 for x in loc])])
+    render.hints = hints
     return out, main, pre
 
 
@@ -149,6 +159,7 @@ def run_spec(spec):
     out = {"spec": spec, "result": "holds", "paths": 0, "stats": None, "why": None, "cex": None, "funcs": [], "reach": 0}
     lv = skel.Leaves()
     files, main, pre = render(spec, lv)
+    hints = list(getattr(render, "hints", []))
     out["text"] = "layout %s (cwd: %s, path: %s)\n" % (layout, cwd_kind, style) + "\n".join("--- %s ---\n%s" % (k, v) for k, v in files.items())
     root = tempfile.mkdtemp(prefix="bbverif_c07_")
     other = tempfile.mkdtemp(prefix="bbverif_cwd_")
@@ -204,7 +215,7 @@ def run_spec(spec):
                         cands.append((desc, z3.BoolVal(True) if cond is True else E.specialize(pth, cond)))
                 for desc, cond in cands:
                     pj = engine.Path(pth.pc + joint, pth.decisions, pth.kind, pth.value, pth.notes)
-                    res, cex = U.find_replayable(E, pj, cond, lv, conc)
+                    res, cex = U.find_replayable(E, pj, cond, lv, conc, hints=hints)
                     if res == "unsat":
                         continue
                     if res == "unknown":
